@@ -444,3 +444,92 @@ def extra_coverage(cases, impl, model):
 
 def shrink(case, il, why, run):
     return case, il, why
+
+
+# =====================================================================================================================
+# C07 through real bytes — appended by eng-c06 (Props/C07text.v, Model/SerDoc.v); nothing above this line is changed.
+# The model's BYTES for the four text routes (Extract/Cmd_c07text.v `text`, its own driver driver/driver_c07text)
+# against the bytes the crates print (harness `ser`: the payload of tp / tpp / ep / epp), on supported cases of a fixed
+# seed, evaluated on every run as an obligation.  std's float printing is an oracle (DESIGN.md 4.4): the model prints a
+# float as the marker NUL 'F' <16 hex digits of the f64 pattern> NUL, which is replaced here by the text the
+# implementation side prints for that pattern (lib/props/c06.py float_text: Python's shortest-digits repr with Rust's
+# tie rule, the same resolution C06 uses).
+# =====================================================================================================================
+TEXT_BYTES = {"cases": 0, "texts_compared": 0, "floats_resolved": 0, "refused_alike": 0, "not_modelled": 0}
+_TEXT_ROUTES = ("tp", "tpp", "ep", "epp")
+
+
+def _text_cases():
+    import random
+    rng = random.Random(20260929)
+    gs = G.SerdeGen(rng, max_depth=5, allow_unsupported=False)
+    out = [(G.ty_str(F6_TY), G.val_str(F6_VAL))]
+    for i in range(500):
+        ty = gs.root_ty() if i % 5 else gs.ty()
+        for _ in range(3):
+            out.append((G.ty_str(ty), G.val_str(gs.value(ty))))
+    return out
+
+
+def _text_obligation():
+    import re, common, c06
+    harness = (globals().get("BINS") or {}).get("main")
+    if not harness:
+        return [("text-bytes", "harness not built")]
+    with common.build_lock():
+        rd = common.build_driver("c07text")
+    if not rd.ok:
+        return [("text-bytes", "driver_c07text not built: %s" % rd.detail)]
+    cases = _text_cases()
+    args = [[t.encode(), v.encode()] for t, v in cases]
+    impl = common.run_lines(harness, [common.case_line("ser", a) for a in args])
+    model = common.run_lines(common.driver_bin("c07text"), [common.case_line("text", a) for a in args])
+    marker = re.compile(rb"\x00F([0-9a-f]{16})\x00")
+
+    def resolve(m):
+        TEXT_BYTES["floats_resolved"] += 1
+        return c06.float_text(int(m.group(1), 16)).encode()
+
+    for (t, v), ml, il in zip(cases, model, impl):
+        TEXT_BYTES["cases"] += 1
+        ml = (ml or "").strip()
+        if ml == "-":
+            TEXT_BYTES["not_modelled"] += 1
+            continue
+        mf = dict(p.split("=", 1) for p in ml.split(" ") if "=" in p)
+        routes = parse_ser_line(il or "")
+        for r in _TEXT_ROUTES:
+            if r not in mf or r not in routes:
+                return [("text-bytes", "route %s missing for ser %s %s (model %r)" % (r, t, v, ml[:80]))]
+            a, b = mf[r], routes[r]
+            if a == "x" or b[0] != "ok":
+                if not (a == "x" and b[0] == "err"):
+                    return [("text-bytes", "route %s: model %s, implementation %s for ser %s %s"
+                             % (r, "error" if a == "x" else "text", b[0], t, v))]
+                TEXT_BYTES["refused_alike"] += 1
+                continue
+            mt = marker.sub(resolve, bytes.fromhex(a) if a != "-" else b"")
+            it = bytes.fromhex(b[1]) if b[1] != "-" else b""
+            TEXT_BYTES["texts_compared"] += 1
+            if mt != it:
+                return [("text-bytes", "route %s: the model prints %r, the implementation %r for ser %s %s" % (r, mt[:300], it[:300], t, v))]
+    if TEXT_BYTES["texts_compared"] < 1000:
+        return [("text-bytes", "only %d texts compared" % TEXT_BYTES["texts_compared"])]
+    return []
+
+
+_obligations_before_text = globals().get("obligations")
+
+
+def obligations():
+    out = list(_obligations_before_text()) if _obligations_before_text else []
+    return out + _text_obligation()
+
+
+_extra_coverage_before_text = extra_coverage
+
+
+def extra_coverage(cases, impl, model):
+    d = _extra_coverage_before_text(cases, impl, model)
+    d["text_bytes_model_vs_implementation"] = dict(TEXT_BYTES)
+    return d
